@@ -194,8 +194,11 @@ static void *cbuf(const unsigned char *p, size_t n) {
     if (ncrange < 8) { crange[ncrange].p = q; crange[ncrange].n = n; ncrange++; }
     return q;
 }
-static void *cstr(const unsigned char *p, size_t n) {     /* NUL-terminated */
-    unsigned char *q = __real_malloc(n + 1); __real_memcpy(q, p, n); q[n] = 0;
+static struct { void *p, *base; } creg[16];
+static void *cstr(const unsigned char *p, size_t n) {     /* NUL-terminated; at offsets 0..3 of its block in turn (names of any alignment) */
+    static unsigned ctr; unsigned char *base = __real_malloc(n + 1 + 4), *q = base + (ctr++ & 3); __real_memcpy(q, p, n); q[n] = 0;
+    int reg = 0; for (int i = 0; i < 16 && !reg; i++) if (!creg[i].p) { creg[i].p = q; creg[i].base = base; reg = 1; }
+    if (!reg) { memmove(base, q, n + 1); q = base; }
     if (ncrange < 8) { crange[ncrange].p = q; crange[ncrange].n = n + 1; ncrange++; }
     return q;
 }
@@ -208,7 +211,11 @@ static char *ftext(size_t len) {
     return (char *)q;
 }
 #define FMTCALL(call_s, call_d) do { if (flen % 2 == 0) { r = call_s; } else { r = call_d; } } while (0)
-static void cfree(void *p, size_t n) { if (!p) return; memset(p, 0x5A, n ? n : 1); __real_free(p); }
+static void cfree(void *p, size_t n) {
+    if (!p) return; memset(p, 0x5A, n ? n : 1);
+    for (int i = 0; i < 16; i++) if (creg[i].p == p) { __real_free(creg[i].base); creg[i].p = NULL; return; }
+    __real_free(p);
+}
 
 /* returned copies that are kept and re-inspected later (C12) */
 typedef struct { unsigned char *p; size_t n; unsigned char *snap; } kept_t;
